@@ -63,7 +63,10 @@ IsLone(w) == w = <<DASH>> \/ w = <<DASH, DASH>>
 
 BoolTrue  == { <<49>>, <<111, 110>>, <<116, 114, 117, 101>>, <<121, 101, 115>> }        \* 1 on true yes
 BoolFalse == { <<48>>, <<111, 102, 102>>, <<102, 97, 108, 115, 101>>, <<110, 111>> }    \* 0 off false no
-IsBoolWord(w) == w \in BoolTrue \cup BoolFalse
+\* C: boolean words and long option names are matched without regard to case (strcasecmp / strncasecmp as built)
+Lower(w) == [k \in 1 .. Len(w) |-> IF w[k] \in 65 .. 90 THEN w[k] + 32 ELSE w[k]]
+IsTrueWord(w) == Lower(w) \in BoolTrue
+IsBoolWord(w) == Lower(w) \in BoolTrue \cup BoolFalse
 
 IsDecimal(w) == /\ Len(w) >= 1 /\ \A k \in 1 .. Len(w) : w[k] \in 48 .. 57          \* X otherwise
                 /\ (Len(w) = 1 \/ w[1] # 48) /\ Len(w) <= 6
@@ -80,8 +83,12 @@ LongVal(w)  == Rest(w, EqPos(w) + 1)
 \* table lookup: the first entry that matches (C: table order)
 FindShortIn(T, c) == IF \E j \in 1 .. Len(T) : T[j].sh = c
                      THEN CHOOSE j \in 1 .. Len(T) : T[j].sh = c /\ \A q \in 1 .. (j - 1) : T[q].sh # c ELSE 0
-FindLongIn(T, nm) == IF \E j \in 1 .. Len(T) : T[j].lg = nm
-                     THEN CHOOSE j \in 1 .. Len(T) : T[j].lg = nm /\ \A q \in 1 .. (j - 1) : T[q].lg # nm ELSE 0
+\* S: the typed name must equal the table name IN FULL (a table name that is a prefix of the typed name, or the other way
+\* round, is not a match); first matching entry in table order
+SameName(a, b) == Lower(a) = Lower(b)
+FindLongIn(T, nm) == IF \E j \in 1 .. Len(T) : SameName(T[j].lg, nm)
+                     THEN CHOOSE j \in 1 .. Len(T) : SameName(T[j].lg, nm) /\ \A q \in 1 .. (j - 1) : ~SameName(T[q].lg, nm)
+                     ELSE 0
 FindShort(c) == FindShortIn(Tb, c)
 FindLong(nm) == FindLongIn(Tb, nm)
 \* a word that spells a known option (an abstract option does not take such a word as its value: S)
@@ -108,7 +115,7 @@ SplitWords(t) ==
 (* They add nothing: every entry is one of the operators above applied to the token's text.                         *)
 WordFacts(w) == [dash |-> StartsDash(w), long |-> IsLongWord(w), short |-> IsShortWord(w), lone |-> IsLone(w),
                  eq |-> HasEq(w), val |-> IF HasEq(w) THEN LongVal(w) ELSE <<>>,
-                 bool |-> IsBoolWord(w), true |-> w \in BoolTrue, len |-> Len(w)]
+                 bool |-> IsBoolWord(w), true |-> IsTrueWord(w), len |-> Len(w)]
 Fact == [t \in 1 .. Len(TokText) |-> WordFacts(TokText[t])]
 LongOptOf == [tn \in 1 .. Len(Tables) |-> [t \in 1 .. Len(TokText) |->
                  IF IsLongWord(TokText[t]) THEN FindLongIn(Tables[tn], LongName(TokText[t])) ELSE 0]]
@@ -231,7 +238,7 @@ GLongBoolWord(j) == /\ IsLongHere /\ j # 0 /\ Kind(j) = "bool"
 DoLongBoolWord(j) ==
     /\ GLongBoolWord(j)
     /\ IF FW.eq
-       THEN Go(i + 1, 0, SetBool(j, (FW.val \in BoolTrue)), tv, Gone(i), 0, 0, FALSE, FALSE)
+       THEN Go(i + 1, 0, SetBool(j, IsTrueWord(FW.val)), tv, Gone(i), 0, 0, FALSE, FALSE)
        ELSE Go(i + 2, 0, SetBool(j, FN.true), tv, Gone2(i), 0, 0, FALSE, FALSE)
 
 \* "--long=VALUE" (S)
